@@ -515,7 +515,7 @@ def run(ctx):
     chk.histories(hists)
     ctx.sample({"setBox_history": hists[len(hists) // 2]})
     if not quick:
-        res = vlib.tlc("pbc", "MCPbcHist", cfg="MCPbcHistSim.cfg", timeout=1200, simulate=300, depth=7, workers=4,
+        res = vlib.tlc("pbc", "MCPbcHist", cfg="MCPbcHistSim.cfg", timeout=1200, simulate=60, depth=7, workers=4,
                        seed=ctx.seed)
         vlib.tlc_must_hold(res, "PbcHist simulation")
         ctx.add_tlc("MCPbcHistSim(simulate)", res)
